@@ -226,6 +226,9 @@ impl Property for C18 {
             Tier::Thorough => 20_000_000,
         }
     }
+    fn raw_target(&self) -> Option<(&'static str, fn(&[u8]) -> Outcome)> {
+        Some(("transform", fuzz_transform))
+    }
     fn rule(&self) -> String {
         "Every explorer endpoint's transform (11 endpoint configurations via the hook, plus the 10 exported transform_* query functions) x status (200, 201, 404, 500, 0, random) x arbitrary headers x bodies: grammar-generated JSON of the explorer's real shape with the height member as integer (0, small, realistic, u64::MAX, i64::MAX+1) / negative / float / 2^64*10 / string / null / bool / nested / missing, unrelated members at every level, four whitespace styles, member order, truncation; plain-number bodies incl. '+12', ' 12', '12\\n', '012', '1e3', ''; random bytes (invalid UTF-8). Oracle: no trap; no headers; same status; body in {empty, {\"height\":N}, {\"height\":null}} byte-exact; N only if an independent path lookup on the parsed body finds that non-negative integer, and then it must be reported; for status 200 the result is identical for variants of the same document that differ only in headers, whitespace, member order or unrelated members. Non-trivial: a syntactically valid body of the endpoint's shape with >= 1 perturbation; distinct = (endpoint, body) hashes.".into()
     }
